@@ -221,10 +221,12 @@ package decoders
 //@ env pooltype(d.pool, *ammo.Ammo)
 //@ ensures [only-decoder-entries-are-pooled] imp(!typeis(a, *ammo.Ammo), calls(d.pool.Put) == 0)
 
+// (the entries of a JSON array are decoded once and handed out again in every pass: giving one back leaves it as it is)
 //@ func (d *jsonlineDecoder) Release
-//@ props C03 C13
+//@ props C03 C13 C07 C08 C09
 //@ env pooltype(d.pool, *ammo.Ammo)
 //@ ensures [only-decoder-entries-are-pooled] imp(!typeis(a, *ammo.Ammo), calls(d.pool.Put) == 0)
+//@ ensures [array-entries-stay-as-they-are-for-the-next-pass] imp(d.ammos != nil, calls(am.Reset) == 0 && calls(d.pool.Put) == 0)
 
 //@ func (d *rawDecoder) Release
 //@ props C03 C13
